@@ -8,13 +8,6 @@ Import ListNotations.
 Definition run (depth : nat) (ft : ftable) (fs : stable) (file : bytes) : list tv * final :=
   stream (flookup ft) outer_gen inner_gen (slookup fs) depth file.
 
-Fixpoint is_prefix (a b : bytes) : bool :=
-  match a, b with
-  | [], _ => true
-  | x :: a', y :: b' => byte_eqb x y && is_prefix a' b'
-  | _ :: _, [] => false
-  end.
-
 Inductive case37 :=
 (* the first k bytes of [file] delivered the first n of [values] and then ended with [fin] *)
 | Trunc (depth : nat) (ft : ftable) (fs : stable) (file : bytes) (values : list tv)
